@@ -41,6 +41,26 @@ type Spec struct {
 	Blocks  int      // v4: addresses in the range; v6: blocks in the pool (power of two)
 	Reload  bool     // a thread reloads the static lease file (good -> good') meanwhile
 	Static  bool     // the datagrams are from the statically configured client
+	Oob     []int    // receiving interface index per datagram (absent: 1; 0: no control message)
+	// ClockBy of (virtual) time passes once the first ClockAfter datagrams have been answered
+	// and before the next one is received
+	ClockAfter int
+	ClockBy    time.Duration
+}
+
+func (sp Spec) oob(k int) int {
+	if k < len(sp.Oob) {
+		return sp.Oob[k]
+	}
+	return 1
+}
+
+// Unicast4 clears the broadcast flag of a DHCPv4 datagram: the reply to a client without an
+// address then goes out as a layer 2 unicast frame on the receiving interface.
+func Unicast4(d []byte) []byte {
+	d = append([]byte{}, d...)
+	d[10], d[11] = 0, 0
+	return d
 }
 
 var (
@@ -91,6 +111,8 @@ type env struct {
 	db      string
 	mu      sync.Mutex
 	sent    []server.VerifSent
+	sentAt  []time.Duration // virtual time of the controlled run at which each reply was sent
+	early   verifsched.WaitGroup
 	fpath   string
 	release func()
 }
@@ -170,7 +192,12 @@ func (e *env) close() {
 func (e *env) onSent(s server.VerifSent) {
 	e.mu.Lock()
 	e.sent = append(e.sent, s)
+	e.sentAt = append(e.sentAt, verifsched.VOffset())
+	n := len(e.sent)
 	e.mu.Unlock()
+	if e.spec.ClockBy > 0 && n <= e.spec.ClockAfter {
+		e.early.Done()
+	}
 }
 
 // stateKey is the canonical final state of the lease plugin of the chain.
@@ -425,9 +452,43 @@ func (e *env) summarise() (string, []sched.Viol) {
 			viols = append(viols, sched.Viol{Sig: "duplicate-reply", What: fmt.Sprintf("%d replies with transaction id %s", n, x)})
 		}
 	}
+	viols = append(viols, e.promises()...)
 	sort.Strings(parts)
 	// cross-client disjointness in the final state (C02 / C08 keep holding)
 	return strings.Join(parts, " ") + " | " + e.stateKey(), append(viols, e.disjoint()...)
+}
+
+// promises: an OFFER / ACK promises its address to the client for the lease time it carries;
+// no other client may be answered with that address before the promise has run out (virtual
+// time of the controlled run).
+func (e *env) promises() []sched.Viol {
+	if e.spec.Proto != 4 || len(e.sentAt) != len(e.sent) {
+		return nil
+	}
+	type promise struct {
+		who   string
+		until time.Duration
+	}
+	last := map[string]promise{}
+	var v []sched.Viol
+	for i, s := range e.sent {
+		rep, err := pkt.ParseV4(s.Data)
+		if err != nil || (rep.MsgType() != 2 && rep.MsgType() != 5) || net.IP(rep.YI[:]).IsUnspecified() {
+			continue
+		}
+		lease := time.Duration(0)
+		for _, o := range rep.Opts {
+			if o.Code == 51 && len(o.Data) == 4 {
+				lease = time.Duration(binary.BigEndian.Uint32(o.Data)) * time.Second
+			}
+		}
+		addr, who := net.IP(rep.YI[:]).String(), fmt.Sprintf("%x", rep.CHAddr[:6])
+		if p, ok := last[addr]; ok && p.who != who && p.until > e.sentAt[i] {
+			v = append(v, sched.Viol{Sig: "address-promised-twice", What: fmt.Sprintf("client %s is answered with %s at (virtual) time +%v although the server promised it to client %s until +%v", who, addr, e.sentAt[i], p.who, p.until)})
+		}
+		last[addr] = promise{who, e.sentAt[i] + lease}
+	}
+	return v
 }
 
 func (e *env) disjoint() []sched.Viol {
@@ -485,13 +546,21 @@ func (e *env) recv() func(b []byte) (int, int, *net.UDPAddr, bool) {
 		if i >= len(e.spec.Dgrams) {
 			return 0, 0, nil, false
 		}
+		if e.spec.ClockBy > 0 && i == e.spec.ClockAfter {
+			// time passes at a quiet moment: the earlier datagrams have been answered
+			e.early.Wait()
+			verifsched.Advance(e.spec.ClockBy)
+		}
 		d := e.spec.Dgrams[i]
 		i++
-		return copy(b, d), 1, peer, true
+		return copy(b, d), e.spec.oob(i - 1), peer, true
 	}
 }
 
 func (e *env) serve() {
+	if e.spec.ClockBy > 0 {
+		e.early.Add(e.spec.ClockAfter)
+	}
 	io := &server.VerifIO{Sent: e.onSent, Recv: e.recv()}
 	if e.spec.Proto == 4 {
 		l := server.NewVerifListener4(net.Interface{}, e.hs4, io)
@@ -519,10 +588,13 @@ func (sp Spec) Scenario() sched.Scenario {
 			if sp.Reload {
 				run.Spawn("reload", e.reload)
 			}
-			return func(*verifsched.Run) sched.Exec {
+			return func(run *verifsched.Run) sched.Exec {
 				out, v := e.summarise()
 				e.close()
-				return sched.Exec{Outcome: out, Violations: v}
+				// an execution in which a timer of the code under test took part is judged by the
+				// per-reply and state oracles only: the sequential reference runs outside the
+				// scheduler, where those timers never come due
+				return sched.Exec{Outcome: out, Violations: v, NoSerial: run.Timers > 0}
 			}
 		},
 		Serial: func() map[string]string {
@@ -537,9 +609,23 @@ func (sp Spec) Scenario() sched.Scenario {
 			for i := range idx {
 				idx[i] = i
 			}
+			if sp.ClockBy > 0 {
+				idx = idx[sp.ClockAfter:] // the first ClockAfter datagrams come first, in order
+			}
 			permutations(idx, func(order []int) {
 				e := newEnv(sp)
-				for _, k := range order {
+				if sp.ClockBy > 0 {
+					var first []int
+					for k := 0; k < sp.ClockAfter; k++ {
+						first = append(first, k)
+					}
+					order = append(first, order...)
+				}
+				for pos, k := range order {
+					if sp.ClockBy > 0 && pos == sp.ClockAfter {
+						verifsched.AdvanceGlobal(sp.ClockBy)
+						defer verifsched.AdvanceGlobal(-sp.ClockBy)
+					}
 					if e.locked() {
 						// a previous datagram left the lease plugin's mutex held: the next one
 						// would block forever (the per-execution oracle reports lock-left-held)
@@ -550,10 +636,10 @@ func (sp Spec) Scenario() sched.Scenario {
 						continue
 					}
 					if sp.Proto == 4 {
-						o := srv.Run4(net.Interface{}, e.hs4, sp.Dgrams[k], 1, &net.UDPAddr{IP: net.IPv4(10, 9, 9, 9), Port: 68})
+						o := srv.Run4(net.Interface{}, e.hs4, sp.Dgrams[k], sp.oob(k), &net.UDPAddr{IP: net.IPv4(10, 9, 9, 9), Port: 68})
 						e.sent = append(e.sent, o.Sent...)
 					} else {
-						o := srv.Run6(net.Interface{}, e.hs6, sp.Dgrams[k], 1, &net.UDPAddr{IP: net.ParseIP("2001:db8::99"), Port: 546})
+						o := srv.Run6(net.Interface{}, e.hs6, sp.Dgrams[k], sp.oob(k), &net.UDPAddr{IP: net.ParseIP("2001:db8::99"), Port: 546})
 						e.sent = append(e.sent, o.Sent...)
 					}
 				}
@@ -655,6 +741,12 @@ func Specs(thorough bool) []Spec {
 		{Name: "v6/S1e-relayed-two-IA_PDs+direct-solicit", Proto: 6, Blocks: 8, Dgrams: [][]byte{Relayed6(Solicit6x(a, x(1), "2001:db8:0:10::/64", "2001:db8:0:11::/64"), "2001:db8:a::1", "fe80::a", "relay-a"), Solicit6(b, x(2), true, false, "")}},
 		{Name: "v6/S5d-two-short-datagrams-then-a-long-one", Proto: 6, Blocks: 4, Dgrams: [][]byte{Solicit6(a, x(1), false, true, ""), Solicit6(b, x(2), false, true, ""), Relayed6(Solicit6x(c, x(3), "2001:db8:0:12::/64", ""), "2001:db8:c::1", "fe80::c", "a-long-interface-identifier-of-a-relay-agent/port-333")}},
 		{Name: "v4/S5d-two-short-datagrams-then-a-long-one", Proto: 4, Blocks: 4, Dgrams: [][]byte{Discover4(a, 0x1601, nil), Discover4(b, 0x1602, nil), Request4(c, 0x1603, []byte{1, 3, 6, 15, 42, 51, 54, 119, 121, 43, 60, 66, 67})}},
+		// a datagram whose reply is dropped on the send side (layer 2 unicast with no interface to
+		// send from / an interface that does not exist) followed by two clients in flight at once
+		{Name: "v4/S6-reply-dropped-at-send-no-interface-info+two-clients", Proto: 4, Blocks: 4, Oob: []int{0, 1, 1}, Dgrams: [][]byte{Unicast4(Discover4(c, 0x1600, nil)), Discover4(a, 0x1601, []byte{6}), Request4(b, 0x1602, nil)}},
+		{Name: "v4/S6b-reply-dropped-at-send-interface-gone+two-clients", Proto: 4, Blocks: 4, Oob: []int{99999, 1, 1}, Dgrams: [][]byte{Unicast4(Discover4(c, 0x1600, nil)), Discover4(a, 0x1601, []byte{6}), Request4(b, 0x1602, nil)}},
+		// the lease time passes between a client's DISCOVER and its renewal; a second client follows
+		{Name: "v4/S7-lease-time-passes-then-renewal+new-client", Proto: 4, Blocks: 3, ClockAfter: 1, ClockBy: 61 * time.Second, Dgrams: [][]byte{Discover4(a, 0x1601, nil), Request4(a, 0x1602, nil), Discover4(b, 0x1603, nil)}},
 		{Name: "v6/S1-same-client-two-solicits", Proto: 6, Blocks: 2, Dgrams: [][]byte{Solicit6(a, x(1), true, false, ""), Solicit6(a, x(2), true, false, "")}},
 		{Name: "v6/S1b-same-client-two-IA_PDs-each", Proto: 6, Blocks: 8, Dgrams: [][]byte{Solicit6x(a, x(1), "2001:db8:0:15::/64", "2001:db8:0:16::/64"), Solicit6x(a, x(2), "2001:db8:0:11::/64", "")}},
 		{Name: "v6/S1c-same-client-two-hintless-IA_PDs+new-hint", Proto: 6, Blocks: 8, Dgrams: [][]byte{Solicit6x(a, x(1), "", ""), Solicit6(a, x(2), true, false, "2001:db8:0:13::/64")}},
